@@ -18,7 +18,7 @@ import (
 
 // C06 — version negotiation.  One request line per session:
 //
-//	<sid> <cmax> <r1> <r2> [T<ms>] [C] [K1] [K2] [LA]
+//	<sid> <cmax> <r1> <r2> [T<ms>] [C] [K1] [K2] [LA] [V<g><n><l>] [EN0|ES0|EN1|ES1|EN2|ES2]
 //
 // cmax: 1|2 (WithVersion).  r1/r2: how the scripted reader answers GET_SUPPORTED_VERSION /
 // SET_PROTOCOL_VERSION:
@@ -36,6 +36,13 @@ import (
 // K1: the reader sends a KEEPALIVE when it has received GET_SUPPORTED_VERSION and answers the
 // query only after the KEEPALIVE_ACK has arrived; K2: the same for SET_PROTOCOL_VERSION.
 // LA: the traffic after negotiation starts with a KEEPALIVE (see below).
+// V<g><n><l>: header version bits (0..7 each) the reader puts on its greeting, on what it sends
+// during negotiation (replies, keep-alives) and on what it sends afterwards (default 1, 2, and
+// echo of the request's version / 1 for keep-alives).
+// E..: an early caller: SendNoWait(ENABLE_EVENTS_AND_REPORTS) (EN) or SendMessage(SET_READER_CONFIG)
+// (ES) issued before Connect (0), while GET_SUPPORTED_VERSION is unanswered (1), while
+// SET_PROTOCOL_VERSION is unanswered (2).  The reader goes on reading while it waits before an
+// answer, so a frame written too early is recorded before the answer goes out.
 //
 // When Connect proceeds: GET_READER_CONFIG (header only, SendMessage), KEEPALIVE from the reader,
 // GET_READER_CAPABILITIES (1 byte payload, SendMessage); with LA: KEEPALIVE, GET_READER_CONFIG,
@@ -44,8 +51,10 @@ import (
 //
 // Answer line:
 //
-//	<sid> <proceeds|fails|panic|hang> <cver> <frames before the outcome> <frames after> <req1> <req2> <ack>
+//	<sid> <proceeds|fails|panic|hang> <cver> <frames before the outcome> <frames after> <req1> <req2> <ack> <early>
 //
+// "before": for a Connect that proceeds, the frames the reader had read when it sent its last answer
+// to a negotiation message (none without negotiation); otherwise all frames read when Connect ended.
 // frames ::= - | f,f,…  f = <version bits>:<type>:<hex payload>.  cver = Client.version at
 // the end.  req1/req2 = ok|err|- ; ack = ok|missing|-.
 //
@@ -115,7 +124,10 @@ type c06Peer struct {
 	r1, r2         string
 	closeOnSilence bool
 	k1, k2         bool
-	replyType2     int // if non-zero, GET_READER_CONFIG is answered with a header-only frame of this type
+	vg, vn, vl     int    // header versions: greeting, during negotiation, afterwards (-1: echo / 1)
+	early          func() // starts the early caller (once)
+	earlyAt        int    // 1: when GET_SUPPORTED_VERSION arrives, 2: when SET_PROTOCOL_VERSION arrives
+	replyType2     int    // if non-zero, GET_READER_CONFIG is answered with a header-only frame of this type
 
 	pmu       sync.Mutex
 	pendingID uint32
@@ -124,6 +136,7 @@ type c06Peer struct {
 	mu     sync.Mutex
 	wmu    sync.Mutex
 	frames []c06Frame
+	marker int // number of frames read when the reader last answered a negotiation message
 	acks   chan c06Frame
 	done   chan struct{}
 }
@@ -147,7 +160,9 @@ func (p *c06Peer) put(ver, typ int, id uint32, payload []byte) {
 const c06Settle = 1500 * time.Microsecond
 
 func (p *c06Peer) react(f c06Frame, r string, respType int, versions bool) {
-	time.Sleep(c06Settle)
+	p.mu.Lock()
+	p.marker = len(p.frames)
+	p.mu.Unlock()
 	parts := strings.Split(r, ":")
 	num := func(i int) int { n, _ := strconv.Atoi(parts[i]); return n }
 	switch parts[0] {
@@ -156,27 +171,27 @@ func (p *c06Peer) react(f c06Frame, r string, respType int, versions bool) {
 		if versions {
 			pl = []byte{byte(num(1)), byte(num(2))}
 		}
-		p.put(2, respType, f.id, append(pl, c06Status(num(3))...))
+		p.put(p.vn, respType, f.id, append(pl, c06Status(num(3))...))
 	case "E":
-		p.put(2, 100, f.id, c06Status(num(1)))
+		p.put(p.vn, 100, f.id, c06Status(num(1)))
 	case "W":
-		p.put(2, num(1), f.id, nil)
+		p.put(p.vn, num(1), f.id, nil)
 	case "O":
-		p.put(2, respType, f.id, make([]byte, int(MaxBufferedPayloadSz)+1))
+		p.put(p.vn, respType, f.id, make([]byte, int(MaxBufferedPayloadSz)+1))
 	case "G1": // truncated: shorter than the fixed part
-		p.put(2, respType, f.id, []byte{0x40, 0x40, 0x01, 0x1F, 0x00})
+		p.put(p.vn, respType, f.id, []byte{0x40, 0x40, 0x01, 0x1F, 0x00})
 	case "G2": // a well-formed TLV of the wrong type (288 FieldError) where LLRPStatus must be
 		pl := []byte{0x01, 0x20, 0x00, 0x08, 0, 0, 0, 0}
 		if versions {
 			pl = append([]byte{0x40, 0x40}, pl...)
 		}
-		p.put(2, respType, f.id, pl)
+		p.put(p.vn, respType, f.id, pl)
 	case "G3": // LLRPStatus TLV that claims more bytes than the message has
 		pl := []byte{0x01, 0x1F, 0x00, 0x40, 0, 0, 0, 0}
 		if versions {
 			pl = append([]byte{0x40, 0x40}, pl...)
 		}
-		p.put(2, respType, f.id, pl)
+		p.put(p.vn, respType, f.id, pl)
 	case "N":
 		if p.closeOnSilence {
 			p.conn.Close()
@@ -187,15 +202,20 @@ func (p *c06Peer) react(f c06Frame, r string, respType int, versions bool) {
 // maybeKeepAlive answers a negotiation message: directly, or (ka) by first sending a KEEPALIVE
 // and answering when its acknowledgement has been read (or after 1 s, so that a missing ack shows
 // up as a missing frame, not as a stuck session)
-func (p *c06Peer) maybeKeepAlive(ka bool, id uint32, answer func()) {
+func (p *c06Peer) maybeKeepAlive(ka bool, id uint32, stage int, answer func()) {
+	if p.early != nil && p.earlyAt == stage {
+		p.early()
+	}
+	// the answer goes out c06Settle later, from a timer goroutine: the read loop keeps reading
+	later := func() { time.AfterFunc(c06Settle, answer) }
 	if !ka {
-		answer()
+		later()
 		return
 	}
 	p.pmu.Lock()
-	p.pendingID, p.pending = id, answer
+	p.pendingID, p.pending = id, later
 	p.pmu.Unlock()
-	p.put(2, 62, id, nil)
+	p.put(p.vn, 62, id, nil)
 	time.AfterFunc(time.Second, func() { p.runPending(id) })
 }
 
@@ -212,11 +232,19 @@ func (p *c06Peer) runPending(id uint32) bool {
 	return true
 }
 
+// lver: header version of what the reader sends after negotiation
+func (p *c06Peer) lver(dflt int) int {
+	if p.vl >= 0 {
+		return p.vl
+	}
+	return dflt
+}
+
 func (p *c06Peer) run() {
 	defer close(p.done)
 	// ReaderEventNotification: ReaderEventNotificationData{UTCTimestamp, ConnectionAttemptEvent=Success}
 	ren, _ := hex.DecodeString("00f60016" + "0080000c" + "0005a738133c2c9e" + "01000006" + "0000")
-	p.put(1, 63, 0, ren)
+	p.put(p.vg, 63, 0, ren)
 	for {
 		f, err := c06Read(p.conn)
 		if err != nil {
@@ -228,10 +256,10 @@ func (p *c06Peer) run() {
 		switch f.typ {
 		case 46:
 			f := f
-			p.maybeKeepAlive(p.k1, 801, func() { p.react(f, p.r1, 56, true) })
+			p.maybeKeepAlive(p.k1, 801, 1, func() { p.react(f, p.r1, 56, true) })
 		case 47:
 			f := f
-			p.maybeKeepAlive(p.k2, 802, func() { p.react(f, p.r2, 57, false) })
+			p.maybeKeepAlive(p.k2, 802, 2, func() { p.react(f, p.r2, 57, false) })
 		case 72:
 			if !p.runPending(f.id) {
 				select {
@@ -240,15 +268,18 @@ func (p *c06Peer) run() {
 				}
 			}
 		case 1:
-			p.put(f.ver, 11, f.id, c06Status(0))
+			p.put(p.lver(f.ver), 11, f.id, c06Status(0))
 		case 2:
 			if p.replyType2 != 0 {
-				p.put(f.ver, p.replyType2, f.id, nil)
+				p.put(p.lver(f.ver), p.replyType2, f.id, nil)
 			} else {
-				p.put(f.ver, 12, f.id, c06Status(0))
+				p.put(p.lver(f.ver), 12, f.id, c06Status(0))
 			}
+		case 3:
+			p.put(p.lver(f.ver), 13, f.id, c06Status(0))
+		case 64: // ENABLE_EVENTS_AND_REPORTS has no response
 		default:
-			p.put(f.ver, 100, f.id, c06Status(109))
+			p.put(p.lver(f.ver), 100, f.id, c06Status(109))
 		}
 	}
 }
@@ -263,6 +294,8 @@ func c06Session(line string) string {
 	timeout := time.Duration(0)
 	closeOnSilence := false
 	k1, k2, ackFirst := false, false, false
+	earlyKind, earlyAt := "", 0
+	vg, vn, vl := 1, 2, -1
 	for _, o := range f[4:] {
 		switch o {
 		case "K1":
@@ -271,6 +304,11 @@ func c06Session(line string) string {
 			k2 = true
 		case "LA":
 			ackFirst = true
+		case "EN0", "ES0", "EN1", "ES1", "EN2", "ES2":
+			earlyKind, earlyAt = o[:2], int(o[2]-'0')
+		}
+		if len(o) == 4 && o[0] == 'V' {
+			vg, vn, vl = int(o[1]-'0'), int(o[2]-'0'), int(o[3]-'0')
 		}
 		if strings.HasPrefix(o, "T") {
 			ms, _ := strconv.Atoi(o[1:])
@@ -283,15 +321,49 @@ func c06Session(line string) string {
 	cConn, pConn := net.Pipe()
 	// nothing the scripted reader does may block for good, whatever the client does
 	_ = pConn.SetDeadline(time.Now().Add(10 * time.Second))
-	peer := &c06Peer{conn: pConn, r1: f[2], r2: f[3], closeOnSilence: closeOnSilence, k1: k1, k2: k2,
+	peer := &c06Peer{conn: pConn, r1: f[2], r2: f[3], closeOnSilence: closeOnSilence, k1: k1, k2: k2, vg: vg, vn: vn, vl: vl,
 		acks: make(chan c06Frame, 4), done: make(chan struct{})}
-	go peer.run()
 
 	opts := []ClientOpt{WithVersion(VersionNum(cmax)), WithLogger(nil)}
 	if timeout > 0 {
 		opts = append(opts, WithTimeout(timeout))
 	}
 	client := NewClient(opts...)
+
+	// the early caller: runs once, from the harness (before Connect) or from the reader's loop
+	earlyDone := make(chan string, 1)
+	var earlyOnce sync.Once
+	startEarly := func() {
+		earlyOnce.Do(func() {
+			go func() {
+				ctx, cancel := context.WithTimeout(context.Background(), 4*time.Second)
+				defer cancel()
+				if earlyKind == "EN" {
+					if err := client.SendNoWait(ctx, NewHdrOnlyMsg(MsgEnableEventsAndReports)); err != nil {
+						earlyDone <- "err"
+					} else {
+						earlyDone <- "ok"
+					}
+					return
+				}
+				typ, _, err := client.SendMessage(ctx, MsgSetReaderConfig, nil)
+				if err != nil || typ != MsgSetReaderConfigResponse {
+					earlyDone <- "err"
+				} else {
+					earlyDone <- "ok"
+				}
+			}()
+		})
+	}
+	if earlyKind != "" {
+		peer.early, peer.earlyAt = startEarly, earlyAt
+		if earlyAt == 0 {
+			startEarly()
+			time.Sleep(c06Settle) // let it reach the gate
+		}
+	}
+	go peer.run()
+
 	connDone := make(chan string, 1)
 	go func() {
 		defer func() {
@@ -323,8 +395,16 @@ func c06Session(line string) string {
 		outcome = "hang"
 	}
 	before := peer.seen()
+	if outcome == "proceeds" {
+		// negotiation is over, on the wire, when the reader has sent its last answer to a
+		// negotiation message: what it had read by then came before, whatever it reads later came
+		// after (without negotiation: everything comes after)
+		peer.mu.Lock()
+		before = before[:peer.marker]
+		peer.mu.Unlock()
+	}
 
-	req1, req2, ack := "-", "-", "-"
+	req1, req2, ack, early := "-", "-", "-", "-"
 	if outcome == "proceeds" {
 		ctx, cancel := context.WithTimeout(context.Background(), 3*time.Second)
 		cls := func(typ MessageType, want MessageType, err error) string {
@@ -337,7 +417,7 @@ func c06Session(line string) string {
 			if ack == "missing" || ack == "wrong-id" {
 				return
 			}
-			peer.put(1, 62, id, nil)
+			peer.put(peer.lver(1), 62, id, nil)
 			select {
 			case a := <-peer.acks:
 				if a.id == id {
@@ -347,6 +427,14 @@ func c06Session(line string) string {
 				}
 			case <-time.After(3 * time.Second):
 				ack = "missing"
+			}
+		}
+		if earlyKind != "" {
+			startEarly() // a stage that was never reached: the call is made now
+			select {
+			case early = <-earlyDone:
+			case <-time.After(5 * time.Second):
+				early = "blocked"
 			}
 		}
 		if ackFirst {
@@ -376,8 +464,8 @@ func c06Session(line string) string {
 	}
 	// Connect has returned or the client is closed and both loops have lost their connection
 	cver := int(client.version)
-	return fmt.Sprintf("%s %s %d %s %s %s %s %s", sid, outcome, cver, c06Frames(before),
-		c06Frames(all[len(before):]), req1, req2, ack)
+	return fmt.Sprintf("%s %s %d %s %s %s %s %s %s", sid, outcome, cver, c06Frames(before),
+		c06Frames(all[len(before):]), req1, req2, ack, early)
 }
 
 // c06Delivered reports whether a header-only frame of type typ that carries the id of an
@@ -385,7 +473,7 @@ func c06Session(line string) string {
 func c06Delivered(typ int) bool {
 	cConn, pConn := net.Pipe()
 	_ = pConn.SetDeadline(time.Now().Add(10 * time.Second))
-	peer := &c06Peer{conn: pConn, r1: "N", r2: "N", replyType2: typ, acks: make(chan c06Frame, 4), done: make(chan struct{})}
+	peer := &c06Peer{conn: pConn, r1: "N", r2: "N", replyType2: typ, vg: 1, vn: 2, vl: -1, acks: make(chan c06Frame, 4), done: make(chan struct{})}
 	go peer.run()
 	client := NewClient(WithVersion(Version1_0_1), WithLogger(nil))
 	connDone := make(chan struct{})
